@@ -235,6 +235,19 @@ func (s *storage) Fetch(ctx context.Context, plainBR blob.Ref) (io.ReadCloser, u
 		return nil, 0, fmt.Errorf("encrypt: encrypted blob %s failed validation: %w", encBR, err)
 	}
 
+	// The meta blobs are encrypted to a public key, not signed, and use the same
+	// format and key as the data blobs. An index rebuilt from a meta store that
+	// somebody else can write to may therefore map plainBR to the (valid)
+	// ciphertext of another blob, so also check the plaintext we got.
+	plainHash := plainBR.Hash()
+	if plainHash == nil {
+		return nil, 0, blobserver.ErrCorruptBlob
+	}
+	plainHash.Write(plainBytes.Bytes())
+	if !plainBR.HashMatches(plainHash) || uint32(plainBytes.Len()) != plainSize {
+		return nil, 0, blobserver.ErrCorruptBlob
+	}
+
 	return io.NopCloser(plainBytes), plainSize, nil
 }
 
